@@ -23,6 +23,7 @@ def main() -> int:
     ap.add_argument("--timeout", type=float, default=60.0)
     ap.add_argument("--witness-timeout", type=float, default=30.0)
     ap.add_argument("--exclude", action="append", default=[])
+    ap.add_argument("--bind", action="append", default=[], help="name=python-literal: case-split argument bound concretely")
     ap.add_argument("--mutant", type=int, default=-1)
     ap.add_argument("--replay", default=None, help="JSON object of concrete args: native replay only")
     ap.add_argument("--no-witness", action="store_true")
@@ -52,6 +53,13 @@ def main() -> int:
         res = {"module": a.module, "fn": a.fn, "model": meta.get("model", "real"), "timeout": a.timeout,
                "pre": symx.pre_lines(fn), "exclude": list(a.exclude), "replays": 0}
 
+        import ast as _ast
+
+        binds = {}
+        for b in a.bind:
+            k, v = b.split("=", 1)
+            binds[k] = _ast.literal_eval(v)
+            a.exclude.append(f"{k} == {binds[k]!r}")
         if a.replay is not None:
             kw = symx.unjson(json.loads(a.replay))
             holds, detail = symx.replay_native(fn, kw)
@@ -68,7 +76,7 @@ def main() -> int:
         if a.witness_only:
             symx.WITNESS = True
             try:
-                w = symx.run_symbolic(fn, a.witness_timeout, meta.get("per_path"), a.exclude)
+                w = symx.run_symbolic(fn, a.witness_timeout, meta.get("per_path"), a.exclude, binds)
             finally:
                 symx.WITNESS = False
             wit = {"state": w["state"], "paths": w["paths"], "z3_queries": w["z3_queries"], "z3_time_s": w["z3_time_s"], "replays": 0}
@@ -88,7 +96,10 @@ def main() -> int:
 
             cmd = [sys.executable, "-m", "engine.runob", a.module, a.fn, "--witness-only", "--witness-timeout", str(a.witness_timeout)]
             for x in a.exclude:
-                cmd += ["--exclude", x]
+                if not any(x == f"{k} == {v!r}" for k, v in binds.items()):
+                    cmd += ["--exclude", x]
+            for b in a.bind:
+                cmd += ["--bind", b]
             env = dict(os.environ)
             for k in ("VERIF_SCRATCH",):
                 env.pop(k, None)
@@ -108,7 +119,7 @@ def main() -> int:
         artefacts = []
         budget = a.timeout
         for attempt in range(4):
-            r = symx.run_symbolic(fn, max(5.0, budget), meta.get("per_path"), extra)
+            r = symx.run_symbolic(fn, max(5.0, budget), meta.get("per_path"), extra, binds)
             for k in tot:
                 tot[k] = round(tot[k] + r.get(k, 0), 3)
             budget -= r.get("cpu_s", 0)
